@@ -47,6 +47,10 @@ func (e *Engine) runStatic(name, prop string) ([]staticResult, []string) {
 		return e.keepsFrames(prop)
 	case "index-writers":
 		return e.indexWriters(prop)
+	case "no-shared-state":
+		return e.noSharedState(prop)
+	case "strings-via-order":
+		return e.stringsViaOrder(prop)
 	}
 	return nil, []string{"unknown static check " + name}
 }
@@ -78,7 +82,8 @@ func fnInRepo(fn *ssa.Function) bool {
 	return false
 }
 
-var observerNames = map[string]bool{"String": true, "LLString": true, "Ident": true, "Name": true, "ID": true, "IsUnnamed": true,
+// (AssignIDs: the numbering pass the printers run first; it writes ID fields only, under the function's lock)
+var observerNames = map[string]bool{"AssignIDs": true, "String": true, "LLString": true, "Ident": true, "Name": true, "ID": true, "IsUnnamed": true,
 	"Type": true, "Operands": true, "Succs": true, "Sig": true, "WriteTo": true, "MDAttachments": true, "Equal": true, "IsDistinct": true}
 
 // whitelisted cache / ID fields that observers may write
@@ -299,6 +304,29 @@ func (e *Engine) frameViolations(fn *ssa.Function) []frameViolation {
 					case "copy", "delete":
 						if !freshOrigin(x.Call.Args[0], map[ssa.Value]bool{}) {
 							add(x.Pos(), "%s on shared memory", bi.Name())
+						}
+					}
+				}
+				// sorting permutes its argument in place
+				if callee, ok := x.Call.Value.(*ssa.Function); ok && len(x.Call.Args) > 0 {
+					switch callee.String() {
+					case "sort.Slice", "sort.SliceStable", "sort.Sort", "sort.Stable", "sort.Strings", "sort.Ints", "sort.Float64s", modPath + "/internal/natsort.Strings":
+						arg := x.Call.Args[0]
+						// the slice may be wrapped: MakeInterface(slice) / MakeInterface(ChangeType(slice))
+						for {
+							if mi, ok := arg.(*ssa.MakeInterface); ok {
+								arg = mi.X
+								continue
+							}
+							if ct, ok := arg.(*ssa.ChangeType); ok {
+								arg = ct.X
+								continue
+							}
+							break
+						}
+						if !freshOrigin(arg, map[ssa.Value]bool{}) && fn.String() != modPath+"/internal/natsort.Strings" {
+							// (natsort.Strings sorts its own argument: its call sites are what is checked)
+							add(x.Pos(), "%s reorders a shared slice in place", callee.Name())
 						}
 					}
 				}
@@ -1595,4 +1623,199 @@ func (e *Engine) indexWriters(prop string) ([]staticResult, []string) {
 		return nil, []string{"index-writers: contract-stale: newIndex has no map fields"}
 	}
 	return res, nil
+}
+
+
+// noSharedState: the properties quantify over inputs, not over what the process did before -- a parse, a print or
+// a constructor call must not depend on earlier calls through package-level state. One obligation per loaded
+// /repo package: (1) no function outside the package initialiser stores to a package-level variable, and (2)
+// every package-level variable is blank, a table of plain values (basic types, strings, arrays of them, maps from a
+// plain key to a string: the generated keyword tables), a singleton of the package's own types (pointer to a
+// struct type declared in the package: types.I32, constant.True, metadata.Null; clients are assumed not to mutate
+// them, A5), or the debug logger. A cache, pool or shared slice introduced at package level fails (2); a write to
+// an existing variable fails (1).
+func (e *Engine) noSharedState(prop string) ([]staticResult, []string) {
+	var res []staticResult
+	var paths []string
+	for path, pkg := range e.pkgs {
+		if pkg != nil && inRepoPkg(pkg.Pkg) {
+			paths = append(paths, path)
+		}
+	}
+	sort.Strings(paths)
+	var plain func(t types.Type, d int) bool
+	plain = func(t types.Type, d int) bool {
+		if d > 4 {
+			return false
+		}
+		switch u := t.Underlying().(type) {
+		case *types.Basic:
+			return u.Kind() != types.UnsafePointer
+		case *types.Array:
+			return plain(u.Elem(), d+1)
+		}
+		return false
+	}
+	for _, path := range paths {
+		pkg := e.pkgs[path]
+		short := strings.TrimPrefix(path, modPath+"/")
+		r := staticResult{Name: "no-shared-state:" + short, Func: path, Kind: "no-shared-state", Status: "unsat"}
+		var problems []string
+		nvars := 0
+		var names []string
+		for n := range pkg.Members {
+			names = append(names, n)
+		}
+		sort.Strings(names)
+		for _, n := range names {
+			g, ok := pkg.Members[n].(*ssa.Global)
+			if !ok || n == "_" || strings.HasPrefix(n, "init$") {
+				continue
+			}
+			nvars++
+			vt := g.Type().(*types.Pointer).Elem()
+			okKind := plain(vt, 0)
+			if m, isMap := vt.Underlying().(*types.Map); isMap && plain(m.Key(), 0) {
+				if b, isB := m.Elem().Underlying().(*types.Basic); isB && b.Info()&types.IsString != 0 {
+					okKind = true // generated keyword table
+				}
+			}
+			if pt, isPtr := vt.Underlying().(*types.Pointer); isPtr {
+				if nt, isNamed := pt.Elem().(*types.Named); isNamed {
+					if _, isSt := nt.Underlying().(*types.Struct); isSt && nt.Obj().Pkg() == pkg.Pkg {
+						okKind = true // singleton of the package's own type
+					}
+					if nt.Obj().Pkg() != nil && nt.Obj().Pkg().Path() == "log" && nt.Obj().Name() == "Logger" {
+						okKind = true
+					}
+				}
+			}
+			if !okKind {
+				problems = append(problems, fmt.Sprintf("%s: package-level variable %s of type %s (state shared between calls)", posOf(e, g.Pos()), n, vt))
+			}
+		}
+		var fns []*ssa.Function
+		for _, mem := range pkg.Members {
+			switch m := mem.(type) {
+			case *ssa.Function:
+				fns = append(fns, m)
+			case *ssa.Type:
+				for _, T := range []types.Type{m.Type(), types.NewPointer(m.Type())} {
+					ms := e.prog.MethodSets.MethodSet(T)
+					for i := 0; i < ms.Len(); i++ {
+						if f := e.prog.MethodValue(ms.At(i)); f != nil && f.Pkg == pkg {
+							fns = append(fns, f)
+						}
+					}
+				}
+			}
+		}
+		seen := map[*ssa.Function]bool{}
+		for len(fns) > 0 {
+			fn := fns[0]
+			fns = fns[1:]
+			if seen[fn] {
+				continue
+			}
+			seen[fn] = true
+			fns = append(fns, fn.AnonFuncs...)
+			if fn.Name() == "init" || strings.HasPrefix(fn.Name(), "init#") || fn.Synthetic != "" {
+				continue
+			}
+			for _, b := range fn.Blocks {
+				for _, ins := range b.Instrs {
+					st, ok := ins.(*ssa.Store)
+					if !ok {
+						continue
+					}
+					if g, ok := st.Addr.(*ssa.Global); ok {
+						problems = append(problems, fmt.Sprintf("%s: %s stores to the package-level variable %s", posOf(e, st.Pos()), fn.Name(), g.Name()))
+					}
+				}
+			}
+		}
+		sort.Strings(problems)
+		r.Detail = fmt.Sprintf("package %s: %d package-level variables, all tables, own singletons or the logger; none is written outside the package initialiser", short, nvars)
+		if len(problems) > 0 {
+			if len(problems) > 6 {
+				problems = append(problems[:6], fmt.Sprintf("... %d more", len(problems)-6))
+			}
+			r.Status, r.Detail = "fail", strings.Join(problems, "; ")
+		}
+		res = append(res, r)
+	}
+	if len(res) == 0 {
+		return nil, []string{"no-shared-state: no /repo package loaded"}
+	}
+	return res, nil
+}
+
+
+// stringsViaOrder: natsort.Strings -- the sort behind every naturally ordered list of the printed module -- is
+// sort.Sort(Order(a)): the relation it sorts by is Order.Less, which is under contract (it returns natsort.Less of
+// the two elements). A Strings that sorts by keys of its own would sort by an unverified relation.
+func (e *Engine) stringsViaOrder(prop string) ([]staticResult, []string) {
+	pkg := e.pkgs[modPath+"/internal/natsort"]
+	if pkg == nil {
+		return nil, []string{"strings-via-order: package internal/natsort not loaded"}
+	}
+	fn := pkg.Func("Strings")
+	r := staticResult{Name: "strings-via-order", Func: pkg.Pkg.Path(), Kind: "strings-via-order", Status: "unsat",
+		Detail: "natsort.Strings(a) is the single call sort.Sort(Order(a))"}
+	if fn == nil {
+		return nil, []string{"strings-via-order: contract-stale: natsort.Strings not found"}
+	}
+	r.Pos = posOf(e, fn.Pos())
+	ncalls, okCall := 0, false
+	for _, b := range fn.Blocks {
+		for _, ins := range b.Instrs {
+			ci, ok := ins.(ssa.CallInstruction)
+			if !ok {
+				continue
+			}
+			callee, _ := ci.Common().Value.(*ssa.Function)
+			if _, isBuiltin := ci.Common().Value.(*ssa.Builtin); isBuiltin {
+				continue // ssa:deferstack and the like
+			}
+			ncalls++
+			if callee == nil || callee.String() != "sort.Sort" || len(ci.Common().Args) != 1 {
+				continue
+			}
+			mi, ok := ci.Common().Args[0].(*ssa.MakeInterface)
+			if !ok {
+				continue
+			}
+			if n, ok := mi.X.Type().(*types.Named); ok && n.Obj().Name() == "Order" && n.Obj().Pkg() == pkg.Pkg {
+				// the value converted to Order is the parameter itself
+				src := mi.X
+				for {
+					if ct, ok := src.(*ssa.ChangeType); ok {
+						src = ct.X
+						continue
+					}
+					if u, ok := src.(*ssa.UnOp); ok && u.Op == token.MUL {
+						// NaiveForm: load of the parameter's cell
+						if a, ok := u.X.(*ssa.Alloc); ok {
+							for _, ref := range *a.Referrers() {
+								if st, ok := ref.(*ssa.Store); ok && st.Addr == a {
+									src = st.Val
+								}
+							}
+							if _, isParam := src.(*ssa.Parameter); isParam {
+								break
+							}
+						}
+					}
+					break
+				}
+				if p, ok := src.(*ssa.Parameter); ok && len(fn.Params) == 1 && p == fn.Params[0] {
+					okCall = true
+				}
+			}
+		}
+	}
+	if len(fn.Blocks) != 1 || ncalls != 1 || !okCall {
+		r.Status, r.Detail = "fail", fmt.Sprintf("natsort.Strings is not the single call sort.Sort(Order(a)) (%d blocks, %d calls)", len(fn.Blocks), ncalls)
+	}
+	return []staticResult{r}, nil
 }
